@@ -459,6 +459,7 @@ func checkSign(c sigCase) (err error) {
 		w    world
 	}
 	var inv []variant
+	mixedBases := []namedWorld{{"lib-signed", signed}} // verifying worlds from which the mixed-owner sets of round 8 are derived
 	for _, b := range []struct {
 		tag string
 		w   world
@@ -519,9 +520,12 @@ func checkSign(c sigCase) (err error) {
 				inv = append(inv, variant{b.tag + ": letter case of RDATA names inverted (RFC 4034 6.2 type)", v})
 			}
 		}
-		if wild && len(c.Expansion) > 0 {
+		// the labels in front of the rightmost Labels ones replaced (for "*.zone" signed with the RFC
+		// value: the "*"; for an owner like "*a.zone", which Sign takes for a wildcard too, that label:
+		// the expansion is judged against the Labels field that is in the RRSIG)
+		if drop := len(owner) - int(b.w.F.Labels); drop > 0 && len(c.Expansion) > 0 {
 			exp := append(wm.Name{}, c.Expansion...)
-			exp = append(exp, owner[1:].Clone()...)
+			exp = append(exp, owner[drop:].Clone()...)
 			if exp.Valid() && !isWild(exp) {
 				v = b.w.clone()
 				for i := range v.Set {
@@ -529,6 +533,28 @@ func checkSign(c sigCase) (err error) {
 				}
 				v.SigOwner = exp.Clone()
 				inv = append(inv, variant{b.tag + ": wildcard owner replaced by an expansion", v})
+				mixedBases = append(mixedBases, namedWorld{b.tag + ", owner replaced by an expansion", v})
+				if !wild {
+					pbt.Class("expansion-of-an-owner-that-only-Sign-takes-for-a-wildcard")
+				}
+			}
+		}
+	}
+	// the owner of the case itself presented as the expansion of a wildcard further up: the reference
+	// signs with Labels = k below the owner's label count (the RRset of "*.<rightmost k labels>");
+	// "wildcard expansion of the owner consistent with the Labels field"
+	if len(owner) > 0 {
+		d := base.clone()
+		d.F = refw.F
+		d.F.Signer = refw.F.Signer.Clone()
+		d.F.Labels = uint8(len(owner) - 1 - c.Dup%len(owner))
+		d.SigTTL = wantTTL
+		if data, e := signedData(d.Set, d.F); e == nil {
+			if s, e := ref.SignSig(c.Alg, priv, data, nil); e == nil {
+				d.Signature = s
+				inv = append(inv, variant{"ref-signed for the wildcard some labels up (Labels below the owner's label count), presented under this owner", d})
+				mixedBases = append(mixedBases, namedWorld{"ref-signed for the wildcard some labels up", d})
+				pbt.Class(fmt.Sprintf("labels-below-owner-by=%d", len(owner)-int(d.F.Labels)))
 			}
 		}
 	}
@@ -886,14 +912,25 @@ func checkSign(c sigCase) (err error) {
 			return true
 		})
 	}
-	for _, a := range alts {
+	// round 8: one record that does not belong to the RRset (other owner / class / type), in every
+	// position, in the world Sign made and in the wildcard-expanded worlds
+	mixedAlts := mixedSetAlterations(mixedBases, otherType, c.Dup, pbt.Thorough())
+	for _, m := range mixedAlts {
+		alts = append(alts, variant{m.name, m.w})
+	}
+	classes = append(classes, fmt.Sprintf("mixed-owner-bases=%d", len(mixedBases)))
+	for ai, a := range alts {
 		verr := a.w.libVerify()
 		pbt.Class("alteration")
+		if ai >= len(alts)-len(mixedAlts) {
+			pbt.Class("alteration:one-record-outside-the-rrset")
+		}
 		if verr != nil {
 			continue
 		}
 		if rerr := a.w.refVerify(); rerr != nil {
-			return pbt.Errf("RRSIG.Verify accepted the alteration %q (owner %s type %s alg %d, %d records); reference: %v", a.name, wm.EscName(owner), typeName(typ), c.Alg, len(c.Set), rerr)
+			return pbt.Errf("RRSIG.Verify accepted the alteration %q (owner %s type %s alg %d, %d records; owners handed to Verify %q, RRSIG owner %s labels %d); reference: %v",
+				a.name, wm.EscName(owner), typeName(typ), c.Alg, len(c.Set), ownersOf(a.w), wm.EscName(a.w.SigOwner), a.w.F.Labels, rerr)
 		}
 		pbt.Class("alteration-accepted-by-both:" + a.name)
 	}
@@ -1016,6 +1053,15 @@ func genSign(t *rapid.T) sigCase {
 			sub = wm.Name{[]byte("*")}
 		}
 	}
+	if !wild && len(sub) > 0 && sub[0][0] != '*' && rapid.IntRange(0, 15).Draw(t, "starlabel") == 0 {
+		// a first label that merely starts with "*" ("*a.zone."): not a wildcard by RFC 4592, but Sign
+		// gives it the Labels value of one; whatever value is in the RRSIG, expansions consistent with
+		// it verify (round 8, remark 1)
+		sub[0] = append([]byte("*"), sub[0]...)
+		if len(sub[0]) > 63 {
+			sub[0] = sub[0][:63]
+		}
+	}
 	owner := append(sub.Clone(), zone.Clone()...)
 	if !owner.Valid() {
 		owner = zone.Clone()
@@ -1135,7 +1181,7 @@ func genSign(t *rapid.T) sigCase {
 	c.Expir = rapid.Uint32().Draw(t, "expir")
 	c.Dup = rapid.IntRange(0, 5).Draw(t, "dup")
 	c.TTLs = rapid.SliceOfN(rapid.Uint32(), 1, 3).Draw(t, "ttls")
-	if wild {
+	if wild || len(owner) > 0 && owner[0][0] == '*' { // "*" and labels like "*a", which Sign takes for a wildcard too
 		c.Expansion = gen.Name(t, gen.NameOpts{MaxLabs: 2, MaxLabel: 6, Plain: no.Plain})
 		if len(c.Expansion) == 0 {
 			c.Expansion = [][]byte{[]byte("Host")}
